@@ -135,6 +135,14 @@ func (filter *SearchableQueryFilter) filterColumnEqualComparisonExprs(whereNode 
 			return true, nil
 		}
 
+		// <VALUE> = <ColName> and <VALUE> <> <ColName> are the same comparisons as <ColName> = <VALUE> and
+		// <ColName> <> <VALUE>: use the second form to process both of them
+		if isValueExpr(expr.Lexpr) && expr.Rexpr.GetColumnRef() != nil && len(expr.Name) == 1 {
+			if val := expr.Name[0].GetString_(); val != nil && (val.GetSval() == "=" || val.GetSval() == "<>") {
+				expr.Lexpr, expr.Rexpr = expr.Rexpr, expr.Lexpr
+			}
+		}
+
 		var lColumn = expr.Lexpr.GetColumnRef()
 		if lColumn == nil {
 			if filter.mode == base.QueryFilterModeSearchableEncryption {
@@ -205,4 +213,15 @@ func (filter *SearchableQueryFilter) filterColumnEqualComparisonExprs(whereNode 
 		return true, nil
 	}, whereNode)
 	return exprs, err
+}
+
+// isValueExpr return true if node is constant, placeholder or type cast of them
+func isValueExpr(node *pg_query.Node) bool {
+	if node == nil {
+		return false
+	}
+	if typeCast := node.GetTypeCast(); typeCast != nil {
+		node = typeCast.GetArg()
+	}
+	return node.GetAConst() != nil || node.GetParamRef() != nil
 }
